@@ -115,19 +115,17 @@ class PathCtx:
         on them): that over-approximates feasibility, so at worst an infeasible path is explored."""
         allf = self.facts + self.pc + [f]
         fs = [g for g in allf if not _has_quantifier(g)]
-        if len(fs) != len(allf):
-            # refutation with the quantified hypotheses is fast when it exists; give it a short budget
-            r, _ = check_sat(allf, 400)
-            if r == z3.unsat:
-                return False
-            if r == z3.sat:
-                return True
         r, _ = check_sat(fs, self.explorer.feas_timeout)
-        if r != z3.unsat and careful and len(fs) != len(allf):
-            # a raise site: spend a real budget on refuting it with all hypotheses before exploring it
+        if r == z3.unsat:
+            return False
+        if len(fs) == len(allf) or not careful:
+            return True
+        # a raise site that the quantifier-free hypotheses do not exclude: try to refute it with all hypotheses
+        # (refutations are fast when they exist), first with a short, then with a real budget
+        r2, _ = check_sat(allf, 400)
+        if r2 == z3.unknown:
             r2, _ = check_sat(allf, 15000)
-            return r2 != z3.unsat
-        return r != z3.unsat
+        return r2 != z3.unsat
 
     def branch(self, cond, careful=False):
         """decide a symbolic condition (z3 Bool) on this path; returns Python bool."""
